@@ -2,7 +2,7 @@ CONSTANTS
   Member = {m1, m2, m3}
   Stranger = {x1}
   TSet = {1, 2, 3}
-  MaxSig = 5
+  MaxSig = 7
   MaxSerial = 12
   MaxDESet = {1, 2, 3}
   MaxAttSet = {1, 2, 3}
@@ -10,11 +10,12 @@ CONSTANTS
   PenaltySet = {1, 2, 4}
   KSet = {1, 2}
   PreSet = {0, 1}
-  PostSet = {0}
-  TransOn = FALSE
+  PostSet = {0, 1}
+  TransOn = TRUE
   Depth = 26
   InitDESet = {0, 1, 2}
   MaxPerBlock = 4
+  SrcSet = {"direct", "tunnel"}
 SPECIFICATION GSpec
 INVARIANT Emit
 CHECK_DEADLOCK FALSE
